@@ -62,6 +62,10 @@ def check(ctx):
     else:
         r1.bad(V(r1.id, "<anchor>", "missing:default_field_case", "anchor not found"))
     r1.require_floor(2, "precedence facts")
+    from c04 import check_naming_adds_no_literal
+    check_naming_adds_no_literal(S, r1)
+    for v_ in r1.violations:
+        v_.rule = r1.id
     rules.append(r1)
 
     # ---------------------------------------------------------------- D2
